@@ -44,7 +44,7 @@ Judge(c) ==
   ELSE LET src == WithGrad(c.doc, Layers(c.doc))
            out == c.out.layers
            S(p) == SrcStack(src, p)
-           Robust(p) == \A q \in NbrsR(p, BandR(c.doc.view)) : S(q) = S(p)
+           Robust(p) == LET cv == SrcCover(src, p) IN \A q \in NbrsR(p, BandR(c.doc.view)) : SrcCover(src, q) = cv
            smp == Samples(c.doc.vb)
            bad == { p \in smp : OutStack(out, p) # S(p) /\ Robust(p) }
            \* gradient parameter: pairwise over the covering layers (same length when the stacks agree)
